@@ -161,6 +161,11 @@ def check_sentence(kind: str, s: str) -> t.Optional[t.Tuple[str, str]]:
         return (f"differs:{kind}:{'+'.join(diff)}:{multi}", f"{s!r}: " + "; ".join(f"{k} should be {exp[k]!r}, got {got.get(k)!r}" for k in diff))
     # the result belongs to the caller: after the caller has changed every list / dict in it, the same text -- and the
     # shortest definition, which has none of the optional elements -- still parse to what the grammar denotes
+    # (one sentence in eight, chosen by a checksum of its text: a result shared between calls shows on any text)
+    import zlib
+
+    if zlib.crc32(s.encode("utf-8", "surrogatepass")) & 7:
+        return None
     import copy
 
     exp0 = copy.deepcopy(exp)
